@@ -169,6 +169,7 @@ Proof.
   pose proof (serve_findnode_answer c t lv requester id ds maxn rsize now) as H.
   destruct (serve_findnode c t lv requester id ds maxn rsize now). exact (proj2 H).
 Qed.
+Print Assumptions C14_served_is_answer.
 
 (* "at most the configured maximum (plus its own record)": the records of all packets of an answer
    together are at most max_nodes_response table entries, plus the local record iff distance 0 was
